@@ -7,3 +7,11 @@ e3("C18", "Bounded symbolic execution of the real setters/getters/part-select/li
           "every feasible path that each read equals the two's-complement reduction, that all read paths agree and that a part-select write "
           "changes exactly the selected bits. Holds for all values within the bound; widths/paths are enumerated, not proved for all programs.",
    "symbolic execution of the real Python code with z3 (all values, enumerated widths/paths), counterexample replay", "DESIGN.md section 6 C18")
+
+e3("C19", "Bounded symbolic execution of the real wildcard-bin code through the public covergroup API: for single bins the pattern value, "
+          "the mask and the sample are all symbolic 16-bit values (1..3 patterns) and z3 shows hit <=> some pattern agrees on every "
+          "non-wildcard bit; for array bins the masks/strings/bin counts are enumerated (every mask up to 8/10 bits for the expansion "
+          "kernel) with symbolic pattern value and sample, and z3 shows the produced ranges are ascending, disjoint and cover exactly the "
+          "matching values and that exactly the reference bin is incremented. str2bin is compared with an independent parse on all "
+          "strings up to the stated length (enumeration).",
+   "symbolic execution of the real Python code with z3 bit-vectors (all sample/pattern values), enumerated masks/strings", "DESIGN.md section 6 C19")
